@@ -276,6 +276,19 @@ theorem c02_keys_read_back (F : Codec.FloatLaws) (env : Env) (hS : Codec.schemaO
   decodeKeys_keyTexts constsV2 rfl (Codec.escLaws_path Escape.tablesV2 Escape.c01_tables_ok_v2) F env
     (Codec.schemaOK_of_check env hS) tys keys texts hv ht
 
+/-- **The parameters of a call come back** (the second third of `hcodec`, for a query that consists
+of the params record's own pairs): the sorted name/value pairs the generated client writes for a
+record of parameters — every field on a query writer of its own — are decoded by the generated
+`DecodeQueryParams` to the caller's record (normalised: own defaults filled in), for every params
+record of every schema and parameters of every type. -/
+theorem c02_params_read_back (F : Codec.FloatLaws) (env : Env) (hS : Codec.schemaOKb env = true)
+    (n : TName) (incs : List TName) (own : List Field) (hfind : env.find n = some (.record incs own))
+    (fs : List (Bytes × Value)) (hv : Codec.ValOK (.record fs)) (pairs : List (Bytes × Bytes))
+    (hp : paramPairs constsV2 env n (.record fs) = some pairs) :
+    decodeParams env n (sortByKey pairs) = .ok (Codec.norm env (encFuel + 1) (.ref n) (.record fs)) :=
+  decodeParams_paramPairs constsV2 rfl (Codec.escLaws_query Escape.tablesV2 Escape.c01_tables_ok_v2) F env
+    (Codec.schemaOK_of_check env hS) n incs own hfind fs hv pairs hp
+
 /-- **End-to-end, request direction.** For every registered resource shape, method kind, call, context
 path and tunnelling threshold: if the client marshals the call (key texts `texts`, parameter pairs
 `pairs`, body `bodyD`), then it puts a request on the wire, and the server — de-tunnelling, prefix,
